@@ -8,13 +8,13 @@ ROOT=$(pwd)
 REPO=${VP_RUN_REPO:-${VERIF_REPO:-/repo}}
 export VERIF_REPO=$REPO
 [ -x bin/harness ] && [ -x bin/model_runner ] || bin/setup >/dev/null 2>&1 || { echo "setup failed"; exit 2; }
-IDS="$*"; [ -n "$IDS" ] || IDS=$(ls seeded | grep -v '\.md$')
+D=${SEED_DIR:-seeded}; IDS="$*"; [ -n "$IDS" ] || IDS=$(ls $D | grep -v "\.md$\|\.log$")
 CHECKS=$(python3 -c "import json;print(' '.join(c['property_id'] for c in json.load(open('MANIFEST.json'))['checks']))")
 echo "# repo=$REPO checks=$CHECKS"
 [ -n "$SKIP_CLEAN" ] || for c in $CHECKS; do bin/check $c >/dev/null 2>&1 || echo "CLEAN-TREE-ALARM $c"; done
 for id in $IDS; do
-  [ -f seeded/$id/patch.diff ] || continue
-  git -C $REPO checkout -q -- . ; git -C $REPO apply $ROOT/seeded/$id/patch.diff || { echo "$id APPLY-FAILED"; continue; }
+  [ -f $D/$id/patch.diff ] || continue
+  git -C $REPO checkout -q -- . ; git -C $REPO clean -fdq; git -C $REPO apply $ROOT/$D/$id/patch.diff || { echo "$id APPLY-FAILED"; continue; }
   hits=""; detail=""
   own=$(echo $id | cut -d- -f1)
   for c in $CHECKS; do
@@ -25,6 +25,6 @@ for id in $IDS; do
       hits="$hits $c($w/$n)"
     fi
   done
-  git -C $REPO checkout -q -- .
+  git -C $REPO checkout -q -- . ; git -C $REPO clean -fdq
   echo "$id caught-by:${hits:- NONE}"
 done
